@@ -2,6 +2,7 @@
 Helper lemmas about the STUN model (`RtcModel/Stun.lean`). Core Lean only.
 -/
 import RtcModel.Stun
+import RtcModel.StunRfc
 
 namespace RtcModel.Stun
 open RtcModel.Generated RtcModel.C16Bytes
@@ -52,33 +53,62 @@ theorem header_length (m : Msg) (h : m.tx.length = 12) : (header m).length = 20 
 
 /-! ### XOR addresses -/
 
-/-- value bytes of an XOR-*-ADDRESS attribute (RFC 5389 §15.2) as the encoder emits them -/
-def xorValue (a : Addr) (tx : Bytes) : Bytes :=
+/-- the value bytes exactly as `append_xor_address` lays them out (two separate xors for IPv6) — an
+auxiliary form; the specification is `xorValue` in `StunRfc.lean` -/
+def encXorValue (a : Addr) (tx : Bytes) : Bytes :=
   match a with
   | .v4 ip port => [0, 1] ++ be16 (port ^^^ cookieHi) ++ xorBytes ip cookieBytes
   | .v6 ip port => [0, 2] ++ be16 (port ^^^ cookieHi) ++ xorBytes (ip.take 4) cookieBytes ++ xorBytes (ip.drop 4) tx
 
+theorem xorBytes_append_key (a k1 k2 : Bytes) (h : k1.length ≤ a.length) :
+    xorBytes a (k1 ++ k2) = xorBytes (a.take k1.length) k1 ++ xorBytes (a.drop k1.length) k2 := by
+  induction k1 generalizing a with
+  | nil => simp [xorBytes]
+  | cons k ks ih =>
+    cases a with
+    | nil => simp at h
+    | cons x xs =>
+      simp only [xorBytes, List.cons_append, List.zipWith_cons_cons, List.length_cons, List.take_succ_cons,
+        List.drop_succ_cons] at *
+      rw [ih xs (by omega)]
+
+/-- the encoder's layout IS the RFC 5389 §15.2 value (one xor with magic-cookie ‖ transaction-id) -/
+theorem xorValue_eq_enc (a : Addr) (tx : Bytes) (ha : a.Wf) : xorValue a tx = encXorValue a tx := by
+  have hc : cookieBytes = [0x21, 0x12, 0xA4, 0x42] := by decide
+  have hh : cookieHi = 0x2112 := by decide
+  cases a with
+  | v4 ip port =>
+    simp only [xorValue, encXorValue, hc, hh]
+    rw [xorBytes_append_key ip [0x21, 0x12, 0xA4, 0x42] tx (by simp [ha.1])]
+    have : ip.drop 4 = [] := List.drop_eq_nil_of_le (by simp [ha.1])
+    simp [this, xorBytes, List.take_of_length_le, ha.1]
+  | v6 ip port =>
+    simp only [xorValue, encXorValue, hc, hh]
+    rw [xorBytes_append_key ip [0x21, 0x12, 0xA4, 0x42] tx (by simp [ha.1])]
+    simp [List.append_assoc]
+
 theorem xorValue_length (a : Addr) (tx : Bytes) (ha : a.Wf) (htx : tx.length = 12) :
     (xorValue a tx).length = match a with | .v4 .. => 8 | .v6 .. => 20 := by
   cases a with
-  | v4 ip port => simp [xorValue, xorBytes_length, ha.1, cookieBytes_length]
+  | v4 ip port => rw [xorValue_eq_enc _ _ ha]; simp [encXorValue, xorBytes_length, ha.1, cookieBytes_length]
   | v6 ip port =>
-    simp [xorValue, xorBytes_length, ha.1, cookieBytes_length, htx]
+    rw [xorValue_eq_enc _ _ ha]; simp [encXorValue, xorBytes_length, ha.1, cookieBytes_length, htx]
 
 theorem appendXor_eq_raw (buf : Bytes) (t : Nat) (a : Addr) (tx : Bytes) (ha : a.Wf) (htx : tx.length = 12) :
     appendXor buf t a tx = appendRaw buf t (xorValue a tx) := by
   have hl := xorValue_length a tx ha htx
   cases a with
-  | v4 ip port => simp only [appendXor, appendRaw, hl]; simp [xorValue, List.append_assoc]
-  | v6 ip port => simp only [appendXor, appendRaw, hl]; simp [xorValue, List.append_assoc]
+  | v4 ip port => simp only [appendXor, appendRaw, hl]; rw [xorValue_eq_enc _ _ ha]; simp [encXorValue, List.append_assoc]
+  | v6 ip port => simp only [appendXor, appendRaw, hl]; rw [xorValue_eq_enc _ _ ha]; simp [encXorValue, List.append_assoc]
 
 theorem parseXor_xorValue (a : Addr) (tx : Bytes) (ha : a.Wf) (htx : tx.length = 12) :
     parseXor (xorValue a tx) tx = some a := by
+  rw [xorValue_eq_enc a tx ha]
   cases a with
   | v4 ip port =>
     obtain ⟨hip, hp⟩ := ha
     have hx : (xorBytes ip cookieBytes).length = 4 := by simp [xorBytes_length, hip, cookieBytes_length]
-    simp only [xorValue, be16, List.cons_append, List.nil_append, parseXor]
+    simp only [encXorValue, be16, List.cons_append, List.nil_append, parseXor]
     rw [rd16_be16 (xor_cookieHi_lt hp), xor_cookieHi_cancel]
     simp only [List.length_cons, hx]
     simp [List.take_of_length_le, hx, xorBytes_xorBytes ip cookieBytes (by simp [hip, cookieBytes_length])]
@@ -87,7 +117,7 @@ theorem parseXor_xorValue (a : Addr) (tx : Bytes) (ha : a.Wf) (htx : tx.length =
     have h1 : (xorBytes (ip.take 4) cookieBytes).length = 4 := by
       simp [xorBytes_length, hip, cookieBytes_length]
     have h2 : (xorBytes (ip.drop 4) tx).length = 12 := by simp [xorBytes_length, hip, htx]
-    simp only [xorValue, be16, List.cons_append, List.nil_append, parseXor]
+    simp only [encXorValue, be16, List.cons_append, List.nil_append, parseXor]
     rw [rd16_be16 (xor_cookieHi_lt hp), xor_cookieHi_cancel]
     simp only [List.length_cons, List.length_append, h1, h2]
     have e1 : (xorBytes (ip.take 4) cookieBytes ++ xorBytes (ip.drop 4) tx).take 4 = xorBytes (ip.take 4) cookieBytes :=
@@ -102,9 +132,6 @@ theorem parseXor_xorValue (a : Addr) (tx : Bytes) (ha : a.Wf) (htx : tx.length =
 
 /-! ### encoder normal form, decoder over encoder output -/
 
-/-- one attribute on the wire (RFC 5389 §15): type, length, value, zero padding to a multiple of 4 -/
-def tlv (t : Nat) (v : Bytes) : Bytes := be16 t ++ be16 v.length ++ v ++ zeros (pad4 v.length)
-
 theorem tlv_length (t : Nat) (v : Bytes) : (tlv t v).length = 4 + v.length + pad4 v.length := by
   simp [tlv]; omega
 
@@ -118,32 +145,6 @@ theorem appendRaw_aligned (buf : Bytes) (t : Nat) (v : Bytes) (h : buf.length % 
     rw [show buf.length + (2 + (2 + v.length)) = (buf.length + 4) + v.length by omega]
     exact pad4_add_aligned (by omega)
   rw [this]
-
-def attrType : Attr → Nat
-  | .username _ => stunEncAttrUsername
-  | .realm _ => stunEncAttrRealm
-  | .nonce _ => stunEncAttrNonce
-  | .software _ => stunEncAttrSoftware
-  | .requestedTransport _ => stunEncAttrRequestedTransport
-  | .lifetime _ => stunEncAttrLifetime
-  | .priority _ => stunEncAttrPriority
-  | .iceControlling _ => stunEncAttrIceControlling
-  | .iceControlled _ => stunEncAttrIceControlled
-  | .useCandidate => stunEncAttrUseCandidate
-  | .xorPeer _ => stunEncAttrXorPeer
-  | .xorMapped _ => stunEncAttrXorMapped
-  | .channelNumber _ => stunEncAttrChannelNumber
-  | .data _ => stunEncAttrData
-
-/-- the value bytes RFC 5389 / 5766 / 8445 prescribe for each attribute -/
-def attrValue (tx : Bytes) : Attr → Bytes
-  | .username v | .realm v | .nonce v | .software v | .data v => v
-  | .requestedTransport v => [UInt8.ofNat v, 0, 0, 0]
-  | .lifetime v | .priority v => be32 v
-  | .iceControlling v | .iceControlled v => be64 v
-  | .useCandidate => []
-  | .xorPeer a | .xorMapped a => xorValue a tx
-  | .channelNumber v => be16 v ++ [0, 0]
 
 /-- side conditions the Rust types guarantee (address shapes) -/
 def Attr.AddrWf : Attr → Prop
@@ -160,9 +161,11 @@ theorem appendAttr_aligned (buf : Bytes) (a : Attr) (tx : Bytes) (h : buf.length
   | username v | realm v | nonce v | software v | data v =>
     simp only [appendAttr, attrType, attrValue]
     rw [padBuf_of_aligned (appendRaw_length_mod _ _ _), appendRaw_aligned _ _ _ h]
+    all_goals simp
   | xorPeer a | xorMapped a =>
     simp only [appendAttr, attrType, attrValue]
     rw [appendXor_eq_raw _ _ _ _ ha htx, appendRaw_aligned _ _ _ h]
+    all_goals simp
   | requestedTransport v | lifetime v | priority v | iceControlling v | iceControlled v | channelNumber v =>
     simp only [appendAttr, attrType, attrValue, tlv]
     rw [padBuf_of_aligned (by simp; omega)]
